@@ -603,14 +603,23 @@ def rule_n(ctx: Ctx, env: EnvA):
             why = f"carry' = carry + [{forms(plus[0])}] - [{forms(minus[0])}]: pickup = depots <= a < split, delivery = a >= split: {ok}"
     ctx.ob("C01.n", "MDCPDPEnv._step:carry", ok, sl.where, why, construct="MDCPDPEnv._step:carry-update")
     dep = nf.strip(sl.cell("current_depot"))
-    okd, whyd = False, "current_depot is not where(back_flag, action, current_depot)"
+    okd, whyd = False, "current_depot is not where(action is a depot, action, current_depot)"
     if nf._fn(dep) == "torch.where" and len(dep.args) == 4:
         cnd, a, b = dep.args[1:]
         lv = nf.boolwalk(cnd, T.BOOL_CELLS)
-        is_depot = [l for l in lv if l.cmp() is not None and l.conj and l.cmp()[1] == ">0" and any("action" in vg.cells_of(x) for x in l.cmp()[0].side_atoms(False)) and not any(x.op == "//" for x in l.cmp()[0].atoms())]
-        visited = [l for l in lv if l.conj and "available" in vg.cells_of(l.node) and "action" in vg.cells_of(l.node)]
-        okd = bool(is_depot) and bool(visited) and "action" in vg.cells_of(a) and nf.strip(b).op == "cell0" and nf.strip(b).args[1] == "current_depot"
-        whyd = f"current_depot' = where((a < D) & (available[a] == 0), a, current_depot): depot test {bool(is_depot)}, already-visited test {bool(visited)}"
+        is_depot = [l for l in lv if l.cmp() is not None and l.conj and l.sign > 0 and l.cmp()[1] == ">0" and any("action" in vg.cells_of(x) for x in l.cmp()[0].side_atoms(False))
+                    and not any(x.op == "//" for x in l.cmp()[0].atoms())]
+        # a tour belongs to the depot it starts from: EVERY move onto a depot (a fresh one that opens the next tour as well as
+        # the return to the own depot) sets current_depot; a further condition (e.g. `already visited`) freezes it at the first depot
+        not_depot = [l for l in lv if l.cmp() is not None and l.conj and l.sign > 0 and l.cmp()[1] == ">=0" and any("action" in vg.cells_of(x) for x in l.cmp()[0].side_atoms(True))
+                     and not any("action" in vg.cells_of(x) for x in l.cmp()[0].side_atoms(False)) and not any(x.op == "//" for x in l.cmp()[0].atoms())]
+        if not is_depot and len(not_depot) == 1 and len(lv) == 1:
+            a, b = b, a                       # where(a >= D, current_depot, a)
+            is_depot = not_depot
+        only = len(lv) == 1 and len(is_depot) == 1
+        okd = only and "action" in vg.cells_of(a) and "current_depot" not in vg.cells_of(a) and nf.strip(b).op == "cell0" and nf.strip(b).args[1] == "current_depot"
+        whyd = (f"current_depot' = where(a < D, a, current_depot): depot test {bool(is_depot)}, no further condition {only} "
+                f"({len(lv)} literal(s) in the switch condition)")
     ctx.ob("C01.n", "MDCPDPEnv._step:current_depot", okd, sl.where, whyd, construct="MDCPDPEnv._step:current-depot")
 
 
@@ -717,10 +726,22 @@ def mdcpdp_mask_classes(ctx: Ctx, env: EnvA, direction: str = "looser"):
     sl = env.slot("_step")
     root = sl.cell("action_mask")
     dep = nf.strip(sl.cell("current_depot"))
-    if nf._fn(dep) != "torch.where":
-        raise AnalysisError("MDCPDPEnv._step: current_depot' is not torch.where(back_flag, ...)")
-    back = nf.strip(dep.args[1], True)
     cur_ids = {dep.id, sl.cell("current_depot").id}
+    # back flag: (the chosen node is a depot) & (it had been visited before this step)
+    back = None
+    for n in vg.walk(root):
+        c = nf._connective(nf.strip(n, True))
+        if c is None or c[0] != "and" or len(c[1]) != 2:
+            continue
+        lv = nf.boolwalk(n, T.BOOL_CELLS)
+        if len(lv) != 2 or not all(l.cmp() is not None and l.conj and l.sign > 0 for l in lv):
+            continue
+        isdep = [l for l in lv if l.cmp()[1] == ">0" and vg.cells_of(l.node) >= {"action"} and "available" not in vg.cells_of(l.node)]
+        seen_ = [l for l in lv if l.cmp()[1] == "==0" and {"available", "action"} <= vg.cells_of(l.node)]
+        if len(isdep) == 1 and len(seen_) == 1:
+            back = nf.strip(n, True)
+    if back is None:
+        raise AnalysisError("MDCPDPEnv._step: back flag (action < D) & (available[action] == 0) not found in the mask")
     b1 = None
     for n in vg.walk(root):
         d_ = nf.dim_of(n)
@@ -728,6 +749,32 @@ def mdcpdp_mask_classes(ctx: Ctx, env: EnvA, direction: str = "looser"):
             b1 = n
     if b1 is None:
         raise AnalysisError("MDCPDPEnv._step: number of depots (capacity.shape[-1]) not found in the mask")
+    if direction == "looser":
+        # the boundary the step uses for `is a depot` must be the number of depot rows _reset puts in front of the customers
+        from .. import symshape
+        from ..envs import generator_slot
+        g, gsl = generator_slot(ctx.repo, env.cls)
+        rs = env.slot("_reset")
+        okb, whyb = False, "reset layout locs = cat((depot, locs), -2) not found"
+        if gsl is not None and isinstance(gsl.fr.ret, vg.TD) and rs is not None and rs.td is not None:
+            SS = symshape.SymShape([rs.td.cells, gsl.fr.ret.cells])
+            d_ = nf.dim_of(b1)
+            have = SS.dim(d_[0], d_[1]) if d_ is not None and isinstance(d_[1], int) and d_[1] < 0 else None
+            lay = nf.strip(rs.td.cells.get("locs")) if rs.td.cells.get("locs") is not None else None
+            want = None
+            if lay is not None and nf._fn(lay) in ("torch.cat", "torch.concat"):
+                items = nf._seq_items(lay.args[1])
+                ax = nf.axis_arg(lay)
+                if items and len(items) == 2 and ax is not None and vg.is_const(ax, -2):
+                    SS.level = 1
+                    want = SS.dim(items[0], -2)
+                    SS.level = 0
+            if have is not None and want is not None:
+                okb = have == want
+                whyb = f"`is a depot` boundary {vg.show(b1, 3)} = {have.show(3)}; depot rows in the reset layout = {want.show(3)}"
+            else:
+                whyb = f"boundary {have.show(3) if have is not None else 'unresolved'} / depot rows {want.show(3) if want is not None else 'unresolved'}"
+        ctx.ob("C01.n", "MDCPDPEnv._step:depot-boundary", okb, sl.where, whyb, construct="MDCPDPEnv._step:depot-boundary")
 
     def make_assume(f):
         def assume(n):
